@@ -44,10 +44,13 @@ func (gw *groupWriter) close() error {
 		// don't print begin/end messages if there's no buffered entries
 		return nil
 	}
-	if _, err := io.WriteString(gw.writer, gw.begin); err != nil {
-		return err
-	}
-	gw.buff.WriteString(gw.end)
-	_, err := io.Copy(gw.writer, &gw.buff)
+	// Emit the begin line, the output and the end line with a single write, so
+	// that blocks of commands that finish at the same time do not interleave
+	var block bytes.Buffer
+	block.WriteString(gw.begin)
+	block.Write(gw.buff.Bytes())
+	block.WriteString(gw.end)
+	gw.buff.Reset()
+	_, err := io.Copy(gw.writer, &block)
 	return err
 }
